@@ -145,6 +145,13 @@ def verify_function(c, extra_options=None):
         res.paths = len(outs)
         missing = set(c.anchors) - getattr(ctx, "anchors_hit", set())
         if missing:
+            # an anchor whose statement exists in the source but was not reached on any feasible path is not a binding problem
+            import ast as _ast
+            texts = ["after: " + _ast.unparse(n) for b in fs.body for n in _ast.walk(b) if isinstance(n, _ast.stmt) and not isinstance(n, (_ast.For, _ast.If))]
+            def present(key):
+                return any(t == key or (key.endswith("=") and t.startswith(key + " ")) or (key.endswith("...") and t.startswith(key[:-3])) for t in texts)
+            missing = {k for k in missing if not present(k)}
+        if missing:
             raise BindingFailure(f"{c.short}: ghost anchors not found in the source: {sorted(missing)}")
         nret = 0
         for cur, oc in outs:
